@@ -3,10 +3,14 @@ import Chain33Model.Proofs.C32
 C32 — Push subscribers receive the sequence log in order without gaps.  Property theorems only.
 
 Two layers: `C32.step` mirrors the task loop of blockchain/push.go (inputs: consumed notifications with
-the subscriber's answer, wake-ups, re-registrations, node restarts — any fault history is a list of
-inputs); `C32.accept` is the specification written from the property text, as an acceptor over the
-visible events.  `run_refines_spec` says every fault history of the loop is accepted;
-`accepted_contiguous` says what acceptance means for the acknowledged ranges.
+the subscriber's answer, ranges without matching data, what happens between acknowledgement and record,
+wake-ups, re-registrations, node restarts — any fault history is a list of inputs); `C32.accept` is the
+specification written from the property text, as an acceptor over the visible events (strict: every
+acknowledgement is recorded at once; lenient: the record may be lost).  `run_refines_spec` /
+`run_refines_strict` say every fault history of the loop is accepted; `accepted_delivery` (all posts),
+`accepted_contiguous_partial` (acknowledged ranges), `accepted_three_strikes` and
+`persisted_only_after_ack` say what acceptance means; `delivered_full_false` refutes the statement over
+histories with lost records.
 -/
 namespace C32
 
